@@ -77,31 +77,84 @@ def gen_scalar(rng, kind=None):
     if kind == 'f': return ('f', gen_flt_bits(rng, tame=True))
     return ('s', gen_bytes(rng, 0, 10))
 
-def gen_obj(rng, depth=2):
+# keys that collide in small tables (Table_Primes 5, 11, 23, 53: residues repeat), negative keys (hash = (uint64_t)k), duplicates
+KEY_POOL = [0, 1, 2, 3, 4, 5, 6, 10, 11, 12, 16, 22, 23, 24, 27, 46, 53, 55, 106, 115, 253, 1265, -1, -2, -5, -11, -23, 2**31, 2**32 + 1, -2**63, 2**63 - 1]
+
+TYPE_NAMES = [b'Int', b'Float', b'String', b'Array', b'List', b'Tuple', b'Table', b'Tree', b'File', b'Range', b'Slice', b'Box', b'Ref', b'Type']
+
+def gen_pairs(rng):
+    n = rng.choice([0, 0, 1, 1, 2, 3, 4, 5, 6, 8, 12])
+    vk = rng.choice('ifs')
+    out = []
+    for _ in range(n):
+        key = rng.choice(KEY_POOL) if rng.random() < 0.7 else rng.randrange(-50, 50)
+        out.append((('i', key), gen_scalar(rng, vk)))
+    return out
+
+def range_values(a, b, c):
+    """the values Range iteration yields (Range_Iter_Init / Range_Iter_Next)"""
+    out = []
+    if c > 0:
+        v = a
+        while v < b: out.append(v); v += c
+    elif c < 0:
+        v = b - 1
+        while v >= a: out.append(v); v += c
+    return out
+
+def gen_range(rng):
+    a = rng.randrange(-6, 7); n = rng.randrange(0, 9); c = rng.choice([1, 1, 2, 3, -1, -2, -3, 0, 5])
+    b = a + rng.randrange(-2, 3) + (n * abs(c) if c else n)
+    if rng.random() < 0.1: a, b = 2**31 - 3, 2**31 + 2          # values that %i truncates
+    return ('G', (a, b, c))
+
+def gen_obj(rng, depth=2, wide=True):
     r = rng.random()
-    if depth <= 0 or r < 0.45: return gen_scalar(rng)
-    if r < 0.65:
+    if depth <= 0 or r < 0.30: return gen_scalar(rng)
+    if r < 0.40:
         k = rng.choice('ifs'); return ('A', [gen_scalar(rng, k) for _ in range(rng.randrange(0, 5))])
-    if r < 0.80:
+    if r < 0.48:
         k = rng.choice('ifs'); return ('L', [gen_scalar(rng, k) for _ in range(rng.randrange(0, 5))])
-    return ('U', [gen_obj(rng, depth - 1) for _ in range(rng.randrange(0, 4))])
+    if r < 0.58 or not wide: return ('U', [gen_obj(rng, depth - 1) for _ in range(rng.randrange(0, 4))])
+    if r < 0.68: return ('H', gen_pairs(rng))
+    if r < 0.76: return ('R', gen_pairs(rng))
+    if r < 0.82: return gen_range(rng)
+    if r < 0.87:
+        k = rng.choice('ifs'); return ('C', [gen_scalar(rng, k) for _ in range(rng.randrange(0, 5))])
+    if r < 0.93: return ('X', gen_obj(rng, depth - 1) if rng.random() < 0.8 else None)
+    if r < 0.96: return ('N', None)
+    return ('O', rng.choice([b'File', b'Ref', b'NoShow']))
 
 def arg_tokens(a):
     k, v = a
     if k == 'i': return ['i', str(v)]
     if k == 'f': return ['f', '%016x' % v]
     if k == 's': return ['s', hx(v)]
+    if k in 'NZ': return [k, '0']
+    if k in 'OY': return [k, hx(v)]
+    if k == 'X': return ['X', '0'] if v is None else ['X', '1'] + arg_tokens(v)
+    if k == 'G': return ['G', '3', 'i', str(v[0]), 'i', str(v[1]), 'i', str(v[2])]
+    if k in 'HR':
+        out = [k, str(len(v))]
+        for kk, vv in v: out += arg_tokens(kk) + arg_tokens(vv)
+        return out
     out = [k, str(len(v))]
     for c in v: out += arg_tokens(c)
     return out
 
 def show_calls(a, acc):
-    """the (fragment, kind, value) calls of show that need a table entry (literals and plain %c are built into the driver)"""
+    """the (fragment, kind, value) calls of show that need a table entry (literals, %p, %s of a type name and plain %c are built into the driver)"""
     k, v = a
     if k == 'i': acc.append((b'%li', 'i', v))
     elif k == 'f': acc.append((b'%f', 'd', v))
-    elif k in 'AUL':
+    elif k in 'AULC':
         for c in v: show_calls(c, acc)
+    elif k in 'HR':
+        for kk, vv in v: show_calls(kk, acc); show_calls(vv, acc)
+    elif k == 'G':
+        for x in range_values(*v): acc.append((b'%i', 'i', x))
+    elif k == 'X' and v is not None: show_calls(v, acc)
+    elif k in 'OY': acc.append((b'%s', 's', v))          # show_to's default arm prints the type's name with %s; so does Type_Show
 
 # ---- formats: list of segments ('lit', bytes) | ('pct',) | ('spec', body str, conv char) -----------------------------
 def gen_spec(rng, conv=None, rich=True):
@@ -121,8 +174,8 @@ def gen_arg_for(rng, conv):
         return ('i', v)
     if n == 'i': return ('i', gen_int(rng))
     if n == 'f': return ('f', gen_flt_bits(rng))
-    if n == 's': return ('s', gen_bytes(rng, 0, 14))
-    if conv == 'p': return gen_scalar(rng)
+    if n == 's': return ('s', gen_bytes(rng, 0, 14)) if rng.random() < 0.95 else ('Y', rng.choice(TYPE_NAMES))   # c_str of a Type object = its name
+    if conv == 'p': return gen_scalar(rng) if rng.random() < 0.8 else rng.choice([('N', None), ('O', b'File'), ('X', None), ('Y', b'Int')])
     return gen_obj(rng, 2)
 
 def merge_lits(segs):
@@ -152,14 +205,14 @@ def make_op(segs, args, old=b'', start=0, letter='P'):
         if k >= len(args): break
         a = args[k]; k += 1
         frag = b'%' + s[1].encode() + s[2].encode(); conv = s[2]; need = need_of(conv)
-        if need != '*' and need != a[0]: break
+        if need != '*' and need != a[0] and not (need == 's' and a[0] == 'Y'): break
         calls = []
         if conv == '$': show_calls(a, calls)
         elif conv == 'p': pass
         elif need == 'i':
             if frag != b'%c': calls.append((frag, 'i', a[1]))
         elif need == 'f': calls.append((frag, 'd', a[1]))
-        else: calls.append((frag, 's', a[1]))
+        else: calls.append((frag, 's', a[1]))          # a String's bytes, or a Type object's name
         rejected = False
         for f, kind, v in calls:
             tok = ('i%d' % v) if kind == 'i' else ('d%016x' % v) if kind == 'd' else 's' + hx(v)
@@ -207,6 +260,8 @@ def gen_random_op(rng, maxseg=8):
     elif r < 0.13: args = args + [gen_scalar(rng) for _ in range(rng.randrange(1, 3))]   # too many
     elif args and r < 0.15:                                                              # wrong class for one conversion
         i = rng.randrange(len(args)); args[i] = gen_scalar(rng)
+    elif args and r < 0.165:                                                             # NULL where a value is needed (ValueError) or shown (<NULL>)
+        i = rng.randrange(len(args)); args[i] = ('N', None)
     old, start = gen_old_start(rng)
     return make_op(segs, args, old, start)
 
@@ -312,23 +367,28 @@ class C14(Spec):
                   'exactly when a specification has no argument or libc rejects one of the calls (off < 0; C14_too_few), leaves String and File as the prefix left them on '
                   'a rejected call (C14_reject_unchanged, tied to the position of `if (size < 0) { return size; }` in String_Format_To read from the source), reads only indices <= strlen(fmt) and writes only fmt_buf indices <= strlen(fmt); '
                   'for every format the returned position is start + the characters written, the String sink is old[0..start) ++ text and the '
-                  'File sink gets the same text from the same primitive calls. What libc prints for one specification is a parameter (trusted). '
+                  'File sink gets the same text from the same primitive calls (for arguments that are not the destination itself and reach no Type object: plainArgs; '
+                  'the excluded region is exhibited by C14_alias_refuted / C14_type_show_position_refuted); %$ on Tuple/Array/List/Table/Tree/Range/Slice/Box/NULL/objects '
+                  'without Show writes each element\'s own show text once, in iteration order, between the texts read from the source (C14_show_containers, C14_show_more). '
+                  'What libc prints for one specification is a parameter (trusted). '
                   'The model is tied to the code by regenerating the scan set / dispatch / show formats / function text from /repo every run and by '
                   'running thousands of generated formats on the real print_to_with (recording sink, String, File) and on the model.')
-    level_note = ('Trusted: Lean kernel; libc vsnprintf/vsprintf/vfprintf for one specification (the parameter `libc`: text and rejection) and that a whole-format printf equals '
+    level_note = ('Known findings KF-C14-alias and KF-C14-type-show are modelled and excluded by an explicit decidable hypothesis. Trusted: Lean kernel; libc vsnprintf/vsprintf/vfprintf for one specification (the parameter `libc`: text and rejection) and that a whole-format printf equals '
                   'the concatenation of its specifications; translate/g_fmt.py; harness/driver comparison (testing). Known finding F29 (partial output '
                   'before FormatError) is modelled and proved as C14_unchanged_on_error_refuted. Malformed tails ("...%") leave the buffers: modelled (oob), outside the property.')
     rule = ('op = one print_to_with call (format, arguments, old sink content, start position) executed on a recording sink, a String and a File. '
             'Formats: (a) lattice of every conversion x length modifier x 32 flag sets x 3 widths x 4 precisions at boundary values, '
             '(b) every sequence of up to 4 segment kinds (literal, %%, integer, string, %$) so that specifications occur first, last and adjacent, '
             '(c) random formats of up to 8 segments (literal bytes 1..255, %%, specifications with flags/width/precision/length) with Int over the full '
-            'int64 range, Float over all bit patterns, String bytes 1..255, %$ on Int/Float/String/Array/List/Tuple (nested), too few / too many / wrong-class '
+            'int64 range, Float over all bit patterns, String bytes 1..255, %$ on Int/Float/String/Array/List/Tuple/Table/Tree/Range/Slice/Box/NULL/objects without Show '
+            '(nested; Tables with colliding, negative and repeated keys; Ranges in both directions), too few / too many / wrong-class / NULL '
             'arguments, start positions 0..len(old), (d) formats outside the grammar run in a forked child (does the code leave its buffers?), '
             '(e) formats with a specification libc REJECTS (%lc with a value outside 0..127 in the "C" locale, widths/precisions >= 2^31) as the only segment, '
             'first, in the middle and last, after prefixes that are written (literal, %%, accepted specifications incl. accepted %lc), with a second rejected one later, '
             'with too few / wrong-class arguments before it; each on the recording sink, a String and a File, in a forked child (op J). '
             'non-trivial = the format has at least one argument-consuming specification; distinct = distinct op text.')
-    trusted_base = ('translate/g_fmt.py (regex over src/Show.c print_to_with, String_Format_To, File_Format_To and the Show functions of Num.c, String.c, Array.c, Tuple.c, List.c)',
+    trusted_base = ('translate/g_fmt.py (regex over src/Show.c print_to_with / show_to, String_Format_To, File_Format_To and the Show functions of Num.c, String.c, Array.c, Tuple.c, List.c, Table.c, Tree.c, Iter.c, Pointer.c, Type.c)',
+                    'lean/Cello/Table.lean (C02 model: slot order of a Table, used by the driver only) and lean/Cello/Iter.lean (C11 model: values of a Range, driver only)',
                     'harness/h_fmt.c + lean/Driver/Fmt.lean (correspondence is testing)',
                     'libc printf family for ONE specification (model parameter `libc`: its text, or that it rejects the call; the op files carry its results, computed by the generator through ctypes from the same libc in the "C" locale)',
                     'x86-64 SysV varargs: an int64_t passed where printf reads an int yields its low 32 bits (what print_to_with relies on for %d, %c, %hd ...)')
@@ -339,7 +399,13 @@ class C14(Spec):
                    'a call libc rejects writes nothing before it fails (true of glibc for %lc / EILSEQ and for a width or precision overflowing int / EOVERFLOW: '
                    'checked by the oracle on the File sink); other ways of failing (I/O error on the stream, output longer than INT_MAX) are not generated',
                    'File sink positioned at its end: File_Format_To ignores `pos`',
-                   'on too few arguments only the exception is checked by the oracle: the partial output (F29) is a known finding, checked by op K only')
+                   'on too few arguments only the exception is checked by the oracle: the partial output (F29) is a known finding, checked by op K only',
+                   'no argument (at any depth) is the destination String itself: print_to(s, pos, "%s" / "%$", s) reads the buffer it reallocates — known finding '
+                   'KF-C14-alias, modelled (outcome oob), theorem C14_alias_refuted, witness corpus/kf_c14_alias.ops; the theorems carry the decidable hypothesis plainArgs',
+                   'no Type object is shown by %$: Type_Show returns a length instead of a position — known finding KF-C14-type-show, modelled, theorem '
+                   'C14_type_show_position_refuted, witness corpus/kf_c14_type_show.ops (a Type object as %s / %p argument is generated)',
+                   'Table / Tree arguments have Int keys and scalar values (iteration order of the Table taken from the C02 model Cello/Table.lean, of the Tree = descending keys); '
+                   'Slices are whole-Array slices; Exception_Show and GC_Show are not modelled')
     def cases(self, rng, tier, boost=1):
         quick = tier == 'quick'
         cs = []
@@ -374,6 +440,24 @@ class C14(Spec):
                 f = gen_bytes(rng, 0, 6, no_pct=True) + b'%' + ''.join(rng.choice('-+ #0123456789.hlz') for _ in range(rng.randrange(0, 5))).encode()
                 m.append(make_M(f, [gen_scalar(rng, rng.choice('fs')) for _ in range(rng.randrange(0, 3))], b'', 0))
         cs.append(Case('outside', m))
+        # (f) %$ on every kind of object that has a Show instance or falls to show_to's other arms: Table / Tree (colliding, negative, repeated keys),
+        #     Range (both directions, empty, step 0), Slice, Box (full, empty, nested), NULL, objects without Show — alone, nested in Tuples, between other segments
+        nshow = (1500 if quick else 40000) * boost
+        lines = []
+        for i in range(nshow):
+            k = i % 8
+            a = (('H', gen_pairs(rng)) if k == 0 else ('R', gen_pairs(rng)) if k == 1 else gen_range(rng) if k == 2 else
+                 ('C', [gen_scalar(rng, 'ifs'[i % 3]) for _ in range(rng.randrange(0, 5))]) if k == 3 else
+                 ('X', gen_obj(rng, 2) if i % 5 else None) if k == 4 else
+                 rng.choice([('N', None), ('O', b'File'), ('O', b'Ref'), ('O', b'NoShow')]) if k == 5 else
+                 ('U', [gen_obj(rng, 1) for _ in range(rng.randrange(1, 4))]) if k == 6 else gen_obj(rng, 2))
+            pre = rng.choice([[], [], [('lit', gen_bytes(rng, 1, 5, no_pct=True))], [gen_spec(rng, conv='d', rich=False)], [('pct',)]])
+            post = rng.choice([[], [], [('lit', gen_bytes(rng, 1, 5, no_pct=True))], [gen_spec(rng, conv='s', rich=False)], [('spec', '', '$')]])
+            segs = pre + [('spec', '', '$')] + post
+            args = [gen_arg_for(rng, sg[2]) if sg is not segs[len(pre)] else a for sg in segs if sg[0] == 'spec']
+            old, start = gen_old_start(rng)
+            lines.append(make_op(segs, args, old, start))
+        for i, ch in enumerate(chunks(lines, 500 if quick else 2000)): cs.append(Case(f'show{i}', ch))
         # (e) specifications libc rejects (negative result -> FormatError, sinks as the prefix left them), forked (op J)
         nrej = (1600 if quick else 24000) * boost
         lines = [gen_reject_op(rng, ('start', 'mid', 'end', 'only')[i % 4] if i % 5 else rng.choice(['start', 'mid', 'end'])) for i in range(nrej)]
